@@ -154,6 +154,8 @@ def check(seed, n):
                 dist["symbol_pairs"] = dist.get("symbol_pairs", 0) + 1
             mode = ["", "debug", "assemble", "preprocess"][(k + (k // 4 if k >= n else 0) + seed) % 4]
             problem, ndiag, accepted = run_front_end(text, mode, d)
+            if k % 997 == 0 or k == n:
+                proto.sample("frontfuzz", {"text": text, "mode": mode}, per_stream=4)
             evals += 1
             seen.add((text, mode))
             dist["accepted"] += accepted
